@@ -72,7 +72,7 @@ class SecopClient(frappy.client.SecopClient):
     def descriptiveDataChange(self, module, data):
         if module is None:
             self.dispatcher.restart()
-            self._shutdown = True
+            self._shutdown.set()
             raise frappy.errors.SECoPError(f'descriptive data for node {self.nodename!r} has changed')
 
 
